@@ -18,8 +18,8 @@ from pvmon.common import US, fields, inst, off_us, td_us, us_to_fields, wall_us
 from pvmon.oracle import cal, tzdb
 
 PLAN = {
-    "quick": {"configs": ["ext1", "ext0", "ovf"], "nshards": 6, "nshards_ovf": 4, "timeout": 900},
-    "thorough": {"configs": ["ext1", "ext0", "ovf"], "nshards": 12, "nshards_ovf": 8, "timeout": 3400, "suite": ["ext1"]},
+    "quick": {"configs": ["ext1", "ext0", "ovf"], "nshards": 6, "nshards_ovf": 4, "timeout": 900, "decimal_prec": [28, 6, 28, 3], "week_start": [0, 6, 0, 3]},
+    "thorough": {"configs": ["ext1", "ext0", "ovf"], "nshards": 12, "nshards_ovf": 8, "timeout": 3400, "suite": ["ext1"], "decimal_prec": [28, 6, 28, 3], "week_start": [0, 6, 0, 3]},
 }
 DECIDING = ["py.direct", "rs.direct", "parse", "reject", "too_large", "interval", "backend_eq"]
 FLOORS = {"quick": {"py.direct": 100000, "rs.direct": 100000, "parse": 100000, "reject": 10000, "too_large": 3000, "interval": 20000,
